@@ -250,7 +250,8 @@ impl Run {
                 let v: Value = serde_json::from_slice(&cur).unwrap();
                 let o: u128 = v["outstanding"].as_str().unwrap().parse().unwrap();
                 let t: u128 = v["total_sent"].as_str().unwrap().parse().unwrap();
-                let nv = json!({"outstanding": (o - inflight).to_string(), "total_sent": (t - inflight).to_string()});
+                // (saturating: a contract that books less than it escrows must show up in the trace, not crash the harness)
+                let nv = json!({"outstanding": o.saturating_sub(inflight).to_string(), "total_sent": t.saturating_sub(inflight).to_string()});
                 run.w.app.wasm_sudo(ics.clone(), &RawOp::RawSet { key: Binary::from(key), value: Binary::from(serde_json::to_vec(&nv).unwrap()) }).unwrap();
             }
         }
